@@ -41,13 +41,38 @@ constexpr auto operator_arrow_produces_pointer_to_iterator_reference_type() noex
     }
 }
 
+#ifdef __cpp_lib_concepts
+template <class I>
+inline constexpr bool CONTIGUOUS_ITERATOR_V = std::contiguous_iterator<I>;
+#else
+// The structural test below cannot tell a contiguous iterator from one that merely is random access, yields lvalues
+// and has a pointer-returning operator->: std::reverse_iterator and std::deque<T>::iterator pass it although their
+// items are not laid out in iteration order. Exclude what is known not to be contiguous; everything that is excluded
+// here still takes the generic (element by element) path.
+template <class I>
+inline constexpr bool IS_REVERSE_ITERATOR = false;
+
+template <class I>
+inline constexpr bool IS_REVERSE_ITERATOR<std::reverse_iterator<I>> = true;
+
+template <class I, class = void>
+inline constexpr bool IS_BASED_ON_CONTIGUOUS_STORAGE = false;
+
+// iterators of std::vector, std::array, std::basic_string and std::basic_string_view wrap a plain pointer and can be
+// rebuilt from it
+template <class I>
+inline constexpr bool IS_BASED_ON_CONTIGUOUS_STORAGE<
+    I, std::enable_if_t<std::is_constructible_v<I, typename std::iterator_traits<I>::pointer>>> = true;
+
 template <class I>
 inline constexpr bool CONTIGUOUS_ITERATOR_V =
     detail::IS_DERIVED_FROM<typename std::iterator_traits<I>::iterator_category, std::random_access_iterator_tag> &&
     std::is_lvalue_reference_v<typename std::iterator_traits<I>::reference> &&
     std::is_same_v<typename std::iterator_traits<I>::value_type,
                    detail::RemoveCvrefT<typename std::iterator_traits<I>::reference>> &&
-    detail::operator_arrow_produces_pointer_to_iterator_reference_type<I>();
+    detail::operator_arrow_produces_pointer_to_iterator_reference_type<I>() && !detail::IS_REVERSE_ITERATOR<I> &&
+    detail::IS_BASED_ON_CONTIGUOUS_STORAGE<I>;
+#endif
 }  // namespace cntgs::detail
 
 #endif  // CNTGS_DETAIL_ITERATOR_HPP
